@@ -14,11 +14,11 @@
 (*    column the linear longitude scale prescribes (+-1);                  *)
 (*  - view actions leave the data unchanged.                               *)
 (***************************************************************************)
-EXTENDS Integers, Sequences, FiniteSets, Json, IOUtils, TLC, Geo
+EXTENDS Integers, Sequences, FiniteSets, Json, IOUtils, TLC, Geo, Coverage
 
 Rec == ndJsonDeserialize(IOEnv.TRACE)
-VARIABLES l, total, most, lastplanes, dirty
-vars == <<l, total, most, lastplanes, dirty>>
+VARIABLES l, total, most, lastplanes, dirty, cov
+vars == <<l, total, most, lastplanes, dirty, cov>>
 
 AbsS(x) == IF x < 0 THEN -x ELSE x
 Pad3(n) == IF n < 10 THEN "00" \o ToString(n) ELSE IF n < 100 THEN "0" \o ToString(n) ELSE ToString(n)
@@ -93,14 +93,22 @@ ScreenDiff(ev) ==
   \cup DataDiff(ev)
   \cup (IF ~dirty /\ lastplanes # <<>> /\ ev.planes # lastplanes[1] THEN {"view_changed_data"} ELSE {})
 
-Judge(ev) == LET d == IF ev.ev = "screen" THEN ScreenDiff(ev) ELSE {} IN
-             IF d = {} THEN TRUE ELSE PrintT(<<"VERDICT", l, "screen|tab=" \o ToString(ev.tab), {<<"C18", f>> : f \in d}>>)
+\* the coverage fold (not a listed property: a disagreement is reported as model drift, not as a verdict)
+CoverageDrift(ev) ==
+  /\ ev.ev = "coverage"
+  /\ \A i \in 1..Len(ev.positions) : ~OnTie(ev.positions[i].lat) /\ ~OnTie(ev.positions[i].lon)
+  /\ ev.cov # Populate(cov, ev.positions)
 
-Init == l = 1 /\ total = 0 /\ most = 0 /\ lastplanes = <<>> /\ dirty = TRUE
+Judge(ev) == LET d == IF ev.ev = "screen" THEN ScreenDiff(ev) ELSE {} IN
+             /\ (IF d = {} THEN TRUE ELSE PrintT(<<"VERDICT", l, "screen|tab=" \o ToString(ev.tab), {<<"C18", f>> : f \in d}>>))
+             /\ (IF CoverageDrift(ev) THEN PrintT(<<"INFO", "MODEL-DRIFT", l, "coverage">>) ELSE TRUE)
+
+Init == l = 1 /\ total = 0 /\ most = 0 /\ lastplanes = <<>> /\ dirty = TRUE /\ cov = <<>>
 Consume ==
   /\ l <= Len(Rec)
   /\ LET ev == Rec[l] IN
      /\ Judge(ev) /\ l' = l + 1
+     /\ cov' = IF ev.ev = "session_start" THEN <<>> ELSE IF ev.ev = "coverage" THEN ev.cov ELSE cov
      /\ CASE ev.ev = "session_start" -> total' = 0 /\ most' = 0 /\ lastplanes' = <<>> /\ dirty' = TRUE
           [] ev.ev = "action" -> /\ total' = total + ev.added
                                  /\ most' = IF Len(ev.keys) > most THEN Len(ev.keys) ELSE most
